@@ -28,13 +28,15 @@ def run(ctx):
     ]
     # ------------------------------------------------------------------ Leg D
     import outimpl
-    outimpl.run(ctx)
+    legd = threading.Thread(target=(lambda: None) if os.environ.get("C03_LEGB_ONLY") else (lambda: outimpl.run(ctx)))   # knob used by the sensitivity runs only
+    legd.start()
 
     # ------------------------------------------------------------------ Leg B
     exe = ctx.harness("out_drv", ["output/out_drv.cpp"], extra=["-lz"])
     shards = outplan.plans(ctx.rng, q)
     ctx.extra["families"] = sum(len(s) for s in shards)
     results = []
+    aborted = []
     lock = threading.Lock()
 
     def one(i):
@@ -58,6 +60,10 @@ def run(ctx):
                 part += 1
                 continue
             break
+        m = re.search(r"aborted=(\d+)", out or "")
+        if m:
+            with lock:
+                aborted.append("shard %d stopped at plan line %s of %d: too many responses that never completed" % (i, m.group(1), len(shards[i])))
         if rc != 0:
             with lock:
                 ctx.undecided.append("out_drv shard %d failed rc=%s %s %s" % (i, rc, out[-300:], err[-500:]))
@@ -67,6 +73,7 @@ def run(ctx):
     with concurrent.futures.ThreadPoolExecutor(max_workers=6) as ex:
         results = list(ex.map(one, range(len(shards))))
 
+    legd.join()
     seen_sig = {}
     nexec = nrej = 0
     stats = {"sock_calls": 0, "short": 0, "eagain": 0, "maxrec": 0, "by_proto": {}, "by_mode": {}, "by_kind": {}, "gzip": 0, "cache": 0,
@@ -100,9 +107,13 @@ def run(ctx):
             nrej += 1
             sig = classify(x["reset"], x["event"])
             seen_sig[sig] = seen_sig.get(sig, 0) + 1
-            if seen_sig[sig] == 1:
-                ctx.violation(sig, "not a behaviour of Out at %s  | input: %s" % (x["event"][:200], brief(x["reset"])), x["path"])
+            if seen_sig[sig] == 1 and len(seen_sig) <= 12:
+                ctx.violation(sig, "not a behaviour of Out at %s  | input: %s" % (x["event"][:200], brief(x["reset"])), save_replay(ctx, x, len(seen_sig)))
     ctx.traces_ok += nexec - nrej
+    if aborted:
+        ctx.extra["aborted_shards"] = aborted
+        if not ctx.violations:
+            ctx.undecided += aborted
     ctx.extra["leg_b"] = stats
     ctx.extra["rejected_executions"] = dict(seen_sig)
     if stats["sock_calls"] == 0 and nexec:
@@ -116,7 +127,8 @@ def tlc_once(ctx, path):
     r = ctx.tlc(MOD, CFG, workers=1, timeout=1500, env={"TRACE": path}, deadlock_off=True, heap="3g", count=False,
                 extra=["-noGenerateSpecTE"])
     m = re.findall(r"TRACE-MATCHED (\d+)", r.out)
-    return r, (int(m[-1]) if m and not r.failed and r.rc != 124 else None)
+    flags = [(a, int(b)) for a, b in re.findall(r'<<"FLAG", "(\w+)", (\d+)>>', r.out)]
+    return r, (int(m[-1]) if m and not r.failed and r.rc != 124 else None), flags
 
 
 def validate(ctx, trace, shard, lock):
@@ -162,49 +174,44 @@ def validate(ctx, trace, shard, lock):
             with open(rp, "w") as f:
                 f.write("\n".join(lines[s:i + 1]) + "\n")
             res["hangs"].append({"reset": cur, "done": ev.get("done", False), "idle": ev.get("idle", False), "path": rp})
-    start = 0
-    part = 0
-    while start < len(lines):
-        sub = lines[start:]
-        p = os.path.join(ctx.work, "part-%d-%d.ndjson" % (shard, part))
-        part += 1
-        with open(p, "w") as f:
-            f.write("\n".join(sub) + "\n")
-        r, k = tlc_once(ctx, p)
-        if k is None:
-            r, k = tlc_once(ctx, p)
-            if k is None:
-                with lock:
-                    ctx.undecided.append("trace validation failed to run (shard %d): rc=%s\n%s" % (shard, r.rc, r.out[-2000:]))
-                break
-        with lock:
-            ctx.extra["trace_states"] = ctx.extra.get("trace_states", 0) + r.distinct
-        if k >= len(sub):
-            res["events"] += len(sub)
-            break
-        r2, k2 = tlc_once(ctx, p)          # confirm on the identical file
-        if k2 is None or k2 >= len(sub):
+    # one TLC run judges the whole file: an event that is not a step of Out is flagged and the execution skipped
+    r, k, flags = tlc_once(ctx, trace)
+    if k is None or k < len(lines):
+        r, k, flags = tlc_once(ctx, trace)
+        if k is None or k < len(lines):
+            with lock:
+                ctx.undecided.append("trace validation failed to run (shard %d, matched %s of %d lines): rc=%s\n%s" % (
+                    shard, k, len(lines), r.rc, r.out[-2000:]))
+            return res
+    with lock:
+        ctx.extra["trace_states"] = ctx.extra.get("trace_states", 0) + r.distinct
+    if flags:
+        r2, k2, flags2 = tlc_once(ctx, trace)          # confirm on the identical file
+        if flags2 != flags:
             with lock:
                 ctx.undecided.append("flaky trace validation (shard %d)" % shard)
-            break
-        bad = start + k
+            return res
+    res["events"] = len(lines)
+    for kind, ln in flags:
+        bad = ln - 1
         s = bad
-        while s > start and not lines[s].startswith('{"e":"Reset"'):
+        while s > 0 and not lines[s].startswith('{"e":"Reset"'):
             s -= 1
         t = bad + 1
         while t < len(lines) and not lines[t].startswith('{"e":"Reset"'):
             t += 1
-        rp = os.path.join(ctx.replays, "reject-OutTrace-%d-%d-%d.ndjson" % (int(ctx.t0), shard, len(res["rejects"])))
-        with open(rp, "w") as f:
-            f.write("\n".join(lines[s:t]) + "\n")
-        res["rejects"].append({"reset": json.loads(lines[s]), "event": lines[bad], "path": rp, "offset": bad - s})
-        res["events"] += max(0, bad - start)
-        if len(res["rejects"]) >= 60:
-            with lock:
-                ctx.undecided.append("shard %d: more than 60 rejected executions, rest not examined" % shard)
-            break
-        start = t
+        rs = json.loads(lines[s])
+        rej = {"reset": rs, "event": lines[bad], "lines": lines[s:t], "offset": bad - s, "path": None}
+        res["rejects"].append(rej)
+        res["events"] -= (t - bad)
     return res
+
+
+def save_replay(ctx, x, n):
+    rp = os.path.join(ctx.replays, "reject-OutTrace-%d-%d.ndjson" % (int(ctx.t0), n))
+    with open(rp, "w") as f:
+        f.write("\n".join(x["lines"]) + "\n")
+    return rp
 
 
 # ---------------------------------------------------------------------------------------------- signatures
@@ -217,7 +224,8 @@ def brief(rs):
 def classify(rs, event):
     """stable signature = failing input class.  Two classes have a name because their trigger is a feature of the
     application program alone (independent of protocol and schedule); everything else is keyed by the rejected
-    event kind, protocol, mode and program."""
+    event kind, protocol and kind of io; the exact input (program, schedule, configuration) is in the description
+    and in the replay file."""
     try:
         ev = json.loads(event)["e"] if event.startswith("{") else event
     except Exception:
@@ -225,5 +233,4 @@ def classify(rs, event):
     c = outplan.defect_class(rs["prog"], rs["app"], rs["mode"], rs["fb"], rs["gz"], rs["cache"])
     if c:
         return c
-    return "out:%s:%s:%s/%s:%s:%s" % (ev, rs["proto"] + ("+ka" if rs["ka"] else ""), rs["app"], rs["mode"], rs["prog"],
-                                      rs["sched"].split(":")[0])
+    return "out:%s:%s:%s" % (ev, rs["proto"], "async-io" if rs["mode"] in ("async", "async_raw") else "sync-io")
